@@ -141,3 +141,28 @@ m("x-write-obj-partial", "C04", "src/bytes.rs", "self.write_slice(val.as_slice()
 m("x-from-ranges-no-offset-check", "C15", MM, "if filesize < end {", "if false && filesize < end {", "?")
 m("x-array-copy-from-mark-start", "C05,C16", VM, "            self.bitmap.mark_dirty(0, ptr as usize - start as usize);", "            self.bitmap.mark_dirty(ptr as usize - start as usize, 0);", "?")
 m("x-slice-write-obj-volatile-order", "C06", VM, "if total <= size_of::<usize>() {", "if total <= size_of::<u32>() {", "?")
+
+# ---- exploratory batch 2 (Xen backend, lifetime, construction, adapters) ----
+m("x2-grant-drop-leaks", "C12", XN, "        if let Some(unix_mmap) = self.unix_mmap.take() {\n            self.unmap_range(unix_mmap, self.size, self.index);\n        }", "        if let Some(unix_mmap) = self.unix_mmap.take() {\n            std::mem::forget(unix_mmap);\n        }", "?")
+m("x2-grant-unmap-count-zero", "C17", XN, "        self.unmap_ioctl(count as u32, index).unwrap();", "        self.unmap_ioctl(0, index).unwrap();", "?")
+m("x2-slice-drop-no-unmap", "C17", XN, "                .unmap_range(unix_mmap, self.size, self.index);\n        }\n    }\n}", "                .unmap_range(unix_mmap, 0, self.index);\n        }\n    }\n}", "?")
+m("x2-grant-size-not-recorded", "C12", XN, "            grant.size = range.size;", "            grant.size = 0;", "?")
+m("x2-xen-mapfixed-accepted", "C15", XN, "                if flags & libc::MAP_FIXED != 0 {", "                if flags & libc::MAP_FIXED != 0 && range.size == 0 {", "?")
+m("x2-xen-region-size-page", "C15", XN, "            bitmap: B::with_len(range.size),\n            size: range.size,", "            bitmap: B::with_len(range.size),\n            size: pages(range.size).1,", "?")
+m("x2-pages-floor", "C17", XN, "    let num = size.div_ceil(page_size);", "    let num = size / page_size;", "?")
+m("x2-unix-build-size-plus", "C15,C12", UX, "                self.size,\n                self.prot,\n                self.flags,\n                fd,", "                self.size + 1,\n                self.prot,\n                self.flags,\n                fd,", "?")
+m("x2-unix-mapfixed-mask", "C15", UX, "if self.flags & libc::MAP_FIXED != 0 {", "if self.flags & libc::MAP_FIXED == libc::MAP_FIXED | libc::MAP_SHARED {", "?")
+m("x2-raw-align-mask", "C15", UX, "if (addr as usize) & (page_size - 1) != 0 {", "if (addr as usize) & (page_size - 1) > page_size {", "?")
+m("x2-insert-no-sort", "C10", MM, "        regions.sort_by_key(|x| x.start_addr());", "", "?")
+m("x2-unsorted-ge", "C10", MM, "if prev.start_addr() > next.start_addr() {", "if prev.start_addr() > next.last_addr() {", "?")
+m("x2-remove-first-match", "C10", MM, "let region = regions.remove(region_index);", "let region = regions.remove(0);", "?")
+m("x2-cursor-write-advance-buf", "C13", IO, "        let n = WriteVolatile::write_volatile(&mut &mut self.get_mut()[(pos as usize)..], buf)?;\n        self.set_position(self.position() + n as u64);", "        let n = WriteVolatile::write_volatile(&mut &mut self.get_mut()[(pos as usize)..], buf)?;\n        self.set_position(self.position() + buf.len() as u64);", "?")
+m("x2-slice-write-all-partial-ok", "C13", IO, "        if self.write_volatile(buf)? == buf.len() {", "        if self.write_volatile(buf)? <= buf.len() {", "?")
+m("x2-fd-write-marks", "C16", IO, "    if bytes_written < 0 {", "    buf.bitmap().mark_dirty(0, buf.len());\n    if bytes_written < 0 {", "?")
+m("x2-exact-loop-retry-zero", "C14,C13", IO, "                Ok(0) => {\n                    return Err(VolatileMemoryError::IOError(std::io::Error::new(\n                        ErrorKind::UnexpectedEof,", "                Ok(0) if partial_buf.len() > 4096 => {\n                    return Err(VolatileMemoryError::IOError(std::io::Error::new(\n                        ErrorKind::UnexpectedEof,", "?")
+m("x2-array-ref-copy-to-count", "C04", VM, "        for v in buf.iter_mut().take(self.len()) {", "        for v in buf.iter_mut().take(self.len().saturating_sub(1).max(1)) {", "?")
+m("x2-guest-read-obj-swapped", "C03", GM, "region.read(&mut buf[offset..], caddr)", "region.read(&mut buf[..offset.max(1)], caddr)", "?")
+m("x2-atomic-store-mark-before", "C16,C05", VM, "            r.store(val.into(), order);\n            self.bitmap.mark_dirty(addr, size_of::<T>())", "            self.bitmap.mark_dirty(addr, size_of::<T>());\n            r.store(val.into(), order)", "?")
+m("x2-try-access-hole-ok0", "C03", GM, "        if total == 0 {\n            Err(Error::InvalidGuestAddress(addr))", "        if total == 0 && count == 0 {\n            Err(Error::InvalidGuestAddress(addr))", "?")
+m("x2-checked-align-assert-removed", "C19", "src/address.rs", "        assert_eq!(power_of_two & mask, Self::zero());\n        self.checked_add(mask).map(|x| x & !mask)", "        self.checked_add(mask).map(|x| x & !mask)", "?")
+m("x2-bitmap-reset-release-skip", "C09", AB, "        for it in self.map.iter() {\n            it.store(0, Ordering::Release);\n        }", "        for it in self.map.iter().skip(1) {\n            it.store(0, Ordering::Release);\n        }", "?")
